@@ -3,7 +3,7 @@
     (same answer for the same operation; malformed envelopes refused, nothing executed).
     Executable only (extracted / vm_compute). *)
 From Coq Require Import List NArith ZArith Bool String.
-From ApiFu Require Import Base.Sexp Transport.EnvelopeModel Transport.JsonText Transport.EnvelopeSpec Transport.WireModel Transport.FrameText.
+From ApiFu Require Import Base.Sexp Transport.EnvelopeModel Transport.JsonText Transport.EnvelopeSpec Transport.WireModel Transport.FrameText Transport.InitModel.
 Import ListNotations.
 Open Scope string_scope.
 
@@ -539,6 +539,27 @@ Definition classes (T : ntable) (o : op) (is_sub : bool) (ss : list sub) : list 
     (if http_refused then ["refused-http"] else []); (if ws_refused then ["refused-ws"] else []);
     (if executed || http_refused || ws_refused then ["nontrivial"] else []) ].
 
+(** the connection_init sequence the case's socket connections went through must install the case's
+    principal: [run_inits] (InitModel) over plans — "deny" is refused by the hook, "beta" is the
+    principal with the feature, anything else one without; Features reads the plan from the context *)
+Definition k_beta : bytes := Eval vm_compute in bytes_of_string "beta".
+Definition k_deny : bytes := Eval vm_compute in bytes_of_string "deny".
+Definition plan_hook (_ : bool) (p : option bytes) : option bool :=
+  match p with
+  | Some t => if bytes_eqb t k_deny then None else Some (bytes_eqb t k_beta)
+  | None => Some false
+  end.
+Definition plan_api : api unit bool bool :=
+  {| a_schema := tt; a_features := Some (fun c => c); a_default_cost := (0, 0)%Z; a_hook := false; a_pq := false |}.
+Definition inits_install (feat : bool) (plans : list bytes) : bool :=
+  match plans with
+  | [] => false
+  | _ => match run_inits (Some plan_hook) false plan_api (false, false) (map Some plans) with
+         | Some (_, f) => Bool.eqb f feat
+         | None => false
+         end
+  end.
+
 Definition check (c : sexp) : sexp :=
   match tagged "case" c with
   | Some l =>
@@ -554,7 +575,15 @@ Definition check (c : sexp) : sexp :=
               | None => v_bad "operation-not-representable"
               | Some vars =>
                   let o := {| o_query := q'; o_vars := vars; o_opname := n' |} in
-                  if negb (canonical_complete o is_sub subs) then v_bad "missing-canonical-transport"
+                  if negb (match field "cfg" l, field "inits" l with
+                           | Some [_; ft], Some ps =>
+                               match as_bool ft, map_opt as_bytes ps with
+                               | Some ft', Some ps' => inits_install ft' ps'
+                               | _, _ => false
+                               end
+                           | _, _ => false
+                           end) then v_bad "init-sequence-does-not-install-the-principal"
+                  else if negb (canonical_complete o is_sub subs) then v_bad "missing-canonical-transport"
                   else if negb (forallb (frame_split_ok T) subs) then v_bad "frame-split-disagrees"
                   else
                     let subs := map (refit T) subs in
